@@ -44,7 +44,7 @@ def configs(tier):
     out = []
     for i in range(8):
         out.append({"spake": "real" if i == 0 else "stub", "reentrant": i % 3 == 1,
-                    "ordered": i % 2 == 0,
+                    "ordered": i % 2 == 0, "pipeline": i in (3, 6),
                     "reorder_heavy": i % 2 == 1,
                     "uplink_loss": i in (2, 4, 5),
                     "max_msgs": 4 if tier == "quick" else 8})
@@ -106,6 +106,15 @@ def run_one(seed, tape, opts):
         sim.run(200, max_time=5)
     w.finish()
     v = order.violation
+    if not v and w.observation_order_violation:
+        who, later, earlier = w.observation_order_violation
+        v = {"key": "C18.observed_out_of_order.%s_before_%s" % (later, earlier),
+             "clause": "the events occur in the order code, unverified key, "
+                       "verifier, versions - whatever the timing of the "
+                       "get_*() calls",
+             "detail": "%s: a get_%s() Deferred fired while a get_%s() "
+                       "Deferred requested before it was still pending" %
+                       (who, later, earlier)}
     if not v and prefix.violation:
         # the i-th message event carries the i-th message the peer sent: a
         # message delivered twice (or another one in its place) is an event
